@@ -16,6 +16,16 @@ claim("C16",
       "Trusted: Lean kernel; axioms propext/Classical.choice/Quot.sound; extractor; oracle hook + differ; go/token for the name class. SHA-256 executed not reasoned about; 'not a keyword' is a hash-prefix event, not proved.",
       "Lean 4 proof (all digests) + regenerated constants + oracle/model differential histories", "DESIGN.md 5/C16")
 
+claim("C12",
+      "Lean 4 theorems over the model of garble's salt derivation (appendFlags, addGarbleToHash, hashWithPackage, hashWithStruct's salt, runtimeHashWithCustomSalt): seeded names depend only on (seed, import path | struct hash, identifier) for ANY two configurations and action IDs; the seeded pre-image is injective in the path (| separator) and in the seed; unseeded, the addGarbleToHash pre-image is injective in (action ID, garble binary ID, -literals, -tiny, -seed, ctrlflow, GOGARBLE) for all values - proved via unique decodability of the flag tokens and injectivity of base64 (this theorem was false before the fix: commit that hashes GOGARBLE last). Tie: differential histories of the real functions vs. the model over few seeds/paths/names and many configurations, plus the real seed flag parser.",
+      "Trusted: Lean kernel, 3 standard axioms, oracle hook + differ. Assumed: SHA-256 collision resistance on the compared pre-images; cmd/go's action ID covers source/tags/GOOS/GOARCH/Go version; import paths contain no '|'.",
+      "Lean 4 proof (depends-only-on + pre-image injectivity) + oracle/model differential histories", "DESIGN.md 5/C12")
+
+claim("C20",
+      "Lean 4 theorems, for argument vectors of any length: tables_agree (kernel-evaluated on tables regenerated from main.go and from `go help build/testflag` + cmd/go source on every run), split_eq_goSplit (garble's split = the Go flag package's parse over go's own table whenever go accepts the vector; forms -f, --f, -f=v, -f v; arbitrary values), split_partition and nested_preserves_user_args (user flags and packages reach go unchanged, in order), forward_exact / forward_complete (every `go help build` flag with its value reaches the internal go list, with a stated exception list), reject_iff (reverse/map reject exactly when a non-build flag is present), garble_flag_rejected / rx_only_own (garble's own flags after the command are rejected, and nothing else is). Tie: regenerated tables + 2e4 differential vectors through the real splitFlagsFromArgs, filterForwardBuildFlags, rejectUnknownBuildFlags, flagValue(s), flagSetValue, splitFlagsFromFiles, alterTrimpath, rxGarbleFlag.",
+      "Trusted: Lean kernel, 3 standard axioms, extractor, oracle hook. `--` and bare `-` in flag position are outside the domain (stated in the model). The argv of the nested go command is modelled (nestedGoArgs), not executed.",
+      "Lean 4 proof (all vectors) + regenerated flag tables + oracle/model differential", "DESIGN.md 5/C20")
+
 ALL = ["C%02d" % i for i in range(1, 21)]
 
 
